@@ -12,8 +12,20 @@ RULE = ("literal texts = prefix ('' u U b B r R br Rb bR rb BR c) x quote style 
         "\\x \\u \\U, out-of-range \\U) and digits/hex letters placed after escapes; implicit concatenation of 2-3 "
         "literals; long bodies of 1..70000 characters.  Decoder cases are distinct by literal text; module cases by "
         "(literal text, CYTHON_COMPRESS_STRINGS value); table cases by the list of constants.  A case is "
-        "non-trivial when its body contains an escape or a non-ASCII character or is longer than the 2000 split.")
-EXPLANATION = ("theorems (Coq, 11 closed + non-vacuity): (1) the modelled decoder (scanner ESCAPE token lex_escape + "
+        "non-trivial when its body contains an escape or a non-ASCII character or is longer than the 2000 split.  "
+        "Large tables (props/C10_big.py): modules whose sorted string table is laid out byte-exactly so that a unique "
+        "marker of ln bytes recurs eo bytes after its end, for (eo, ln) on both sides of every threshold of the storage "
+        "forms (end offsets 0,1,127|128,639|640, 128+2^k-1|128+2^k for every offset bit k up to 8319|8320, "
+        "16511|16512|16513 = window limit; lengths 3|4, 34|35, 258|259, 300, 520), in str (ASCII, Latin-1, BMP, astral, "
+        "NUL/control characters), f-string parts, bytes (all 256 values), identifiers (ASCII and non-ASCII) and "
+        "text-to-bytes cross references; filler = random characters, local duplicates, runs, words; table sizes "
+        "0.3 KiB .. 220 KiB (quick: 18 KiB, 27 KiB, 72 KiB) incl. 8.3 KiB, 16 KiB and 64 KiB+; run-length sweeps that bisect "
+        "the 200-byte saving threshold of the lzss and zlib branches (one module on each side); a table whose repeat lies "
+        "beyond the LZSS and zlib windows (bz2 branch emitted).  Every module is built for CYTHON_COMPRESS_STRINGS "
+        "undefined/0/1/2 (thorough: also 3/90/5/91/-1) and every literal and global name is compared with CPython's exec of "
+        "the same source.  The run fails if the model token streams of the generated tables do not contain every "
+        "required (form, end offset / length) class and every offset bit both set and clear in every form.")
+EXPLANATION = ("theorems (Coq, 18 closed + 2 non-vacuity examples): (1) the modelled decoder (scanner ESCAPE token lex_escape + "
                "_append_escape_sequence + the three literal builders + the p_string_literal loop) with the proposed octal "
                "repair is total for EVERY kind, raw flag and body (never an internal error, fuel len+1 suffices) and, for "
                "every non-raw str/u/b body without a \\N{ escape, yields exactly the code points/bytes of an independently "
@@ -26,7 +38,13 @@ EXPLANATION = ("theorems (Coq, 11 closed + non-vacuity): (1) the modelled decode
                "exactly the lists; as the tree is, refuted when every constant of a category is empty (width 0). "
                "(4) pipeline_identity: table -> C literal or MSVC char array (C11) -> every branch selectable by "
                "CYTHON_COMPRESS_STRINGS incl. undefined/default (LZSS by C12, zlib/bz2/zstd by contract) -> module init "
-               "rebuilds exactly the constants.  partial: the Plex tokenisation of literal bodies is modelled by "
+               "rebuilds exactly the constants.  (5) large tables: split(decode(encode(concat table))) = table for EVERY "
+               "non-empty table whatever its size and repeat distances (on C12's round trip + the length index); one back "
+               "reference written by LZSS.py for (end offset, length) is read by the C field decoding as exactly that, for "
+               "all three forms (hence distinct references have distinct encodings - no offset or length bit may be "
+               "dropped); the C12 decoder model copies exactly the range so named; the thresholds of the forms and of "
+               "the 200-byte storage test.  Tied to the code by compiled modules with tables up to 220 KiB: concat bytes and "
+               "LZSS output of the real compiler = model (md5), selection chain = model, values at run time = CPython.  partial: the Plex tokenisation of literal bodies is modelled by "
                "lex_escape and tied to the real scanner only by the correspondence run; value agreement is not proved for "
                "raw and char literals nor for the unrepaired decoder on bodies without big octal escapes (tested on every "
                "case); \\N{name} lookups, f-string fields, implicit concatenation (harness list join) and constant "
@@ -38,6 +56,8 @@ TRUSTED = ["CPython eval() of the same literal text as the property oracle (type
            "zlib/bz2/compression.zstd: decompress(compress(x)) = x and outputs are byte strings (codec_ok)",
            "C11's reference C reader and C12's model of the C decompressor (their own checks)",
            "C bit-field semantics: width 1..32 required, initialiser reduced modulo 2^width",
+           "CPython exec() of the generated module source as the oracle for the large-table modules; the recording hook "
+           "around Code.compression_algorithms / GlobalState.generate_pystring_constants (reads the table, changes nothing)",
            "gcc as a conforming C compiler"]
 ASSUMPTIONS = ["language_level=3, UTF-8 source: body characters are Unicode scalar values",
                "every constant shorter than 2^32 bytes", "LP64, unsigned int of 32 bits"]
